@@ -134,3 +134,48 @@ def mu (s : St) : Nat :=
   | .exited => 0
 
 end Ctl
+
+/-
+  The retry loop of /repo/connectionpool.go hostConnPool.connect():
+
+    var conn *Conn
+    for i := 0; i < reconnectionPolicy.GetMaxRetries(); i++ {
+        conn, err = pool.session.connect(ctx, pool.host, pool)
+        if err == nil { break }
+        if opErr, isOpErr := err.(*net.OpError); isOpErr && !opErr.Temporary() { break }
+        time.Sleep(reconnectionPolicy.GetInterval(i))
+    }
+    if err != nil { return err }
+    [USE keyspace on conn]; lock; if closed { unlock; conn.Close() } else { conns = append(conns, conn); unlock }
+-/
+namespace Retry
+
+/-- what one attempt does: connects / fails with an error that is retried / fails with a *net.OpError that is not Temporary() -/
+inductive Dial where
+  | ok | temp | perm
+deriving DecidableEq, Repr
+
+inductive Res where
+  | conn (attempt : Nat)   -- the connection of that attempt goes on to USE / append
+  | err
+  | nilNoErr               -- the loop body never ran: conn == nil AND err == nil
+deriving DecidableEq, Repr
+
+/-- (result, attempts made); `f i` = fate of attempt i -/
+def go (f : Nat → Dial) : Nat → Nat → Bool → Res × Nat
+  | 0, i, failed => (if failed then .err else .nilNoErr, i)
+  | n + 1, i, _ =>
+    match f i with
+    | .ok => (.conn i, i + 1)
+    | .perm => (.err, i + 1)
+    | .temp => go f n (i + 1) true
+
+def connect (maxRetries : Nat) (f : Nat → Dial) : Res × Nat := go f maxRetries 0 false
+
+/-- entries appended to an open pool, and how many of them are nil -/
+def appended : Res → Nat × Nat
+  | .conn _ => (1, 0)
+  | .err => (0, 0)
+  | .nilNoErr => (1, 1)
+
+end Retry
